@@ -45,6 +45,10 @@ CLAIM = dict(
           "as a cross-check of the model's table (every field, every struct-file variant, each run); the UTF-8 "
           "decode of string fields is outside the model (ASCII in the generated cases)."),
     technique="Lean 4 theorems over chunking/memory model + request-trace correspondence against a simulated machine")
+CLAIM["note"] += (" POLLING SESSIONS (third session): one controller, one chip, the same (address, length) read again and again while "
+                  "writes / fills change the memory under it and longer reads of other ranges come in between; every read is judged "
+                  "byte for byte against the simulated memory as it is at that call (a receive buffer or prepared request list kept "
+                  "by the connection from one read to the next must never show through).")
 
 THEOREMS = ["dtype_table_is_hardware_rule", "dtype_sound", "read_partition", "write_partition",
             "read_exact_any_order", "write_exact_any_order", "link_read_partition", "link_write_partition",
